@@ -182,7 +182,12 @@ class GaussianMerge(Compiler):
                     self.new_DAG = self.DAG.copy()
                     # Fix order of operations
                     unified_operations = self.organize_merge_ops([op] + merged_gaussian_ops)
-                    gaussian_transform = GaussianUnitary().compile(unified_operations, registers)
+                    # the registers of the merged operations themselves: ``registers`` does not contain
+                    # modes that are deleted later in the circuit
+                    merged_registers = {r.ind: r for cmd in unified_operations for r in cmd.reg}
+                    gaussian_transform = GaussianUnitary().compile(
+                        unified_operations, list(merged_registers.values())
+                    )
                     # the merged operations may cancel each other, then nothing replaces them
                     self.new_DAG.add_nodes_from(gaussian_transform[:1])
 
